@@ -310,6 +310,18 @@ class Interp:
             return True
         if z3.is_false(cond):
             return False
+        if self.guards:
+            # inside the body of an iteration that happens only if <guard>: a side that is infeasible together with
+            # the guard is not taken (values computed here are merged under the guard only).  Not a recorded decision:
+            # it is recomputed identically when the path prefix is replayed.
+            g = z3.And(*self.guards)
+            can_t = self.feasible(z3.And(g, cond))
+            can_f = self.feasible(z3.And(g, z3.Not(cond)))
+            if can_t != can_f:
+                self.assume(z3.Implies(g, cond if can_t else z3.Not(cond)))
+                return can_t
+            if not can_t:
+                raise Unsupported("iteration guard is infeasible on this path")
         idx = len(self.decisions)
         if idx < len(self.prefix):
             choice = self.prefix[idx]
@@ -330,6 +342,15 @@ class Interp:
         if choice:
             self._note_pin(cond)
         return choice
+
+    def _settle_guard(self, guard):
+        """an iteration guard that is decided by the path condition: False (no such iteration), None (unconditional)"""
+        g = z3.And(*self.guards, guard) if self.guards else guard
+        if not self.feasible(g):
+            return False
+        if not self.guards and self.valid(guard):
+            return None
+        return guard
 
     def _note_pin(self, cond):
         """remember  atom == <code>  facts so that later comparisons are concrete"""
@@ -600,10 +621,29 @@ class Interp:
             except Unsupported as exc:
                 self.notes.append(f"module {dotted}: top-level statement at line {st.lineno} "
                                   f"skipped ({exc})")
+                self._poison_bindings(st, mod, f"module-level statement at line {st.lineno} not modelled ({exc})")
             except PyRaise as exc:
                 self.notes.append(f"module {dotted}: top-level statement at line {st.lineno} "
                                   f"raised {exc.exc.cls.name}; skipped")
+                self._poison_bindings(st, mod, f"module-level statement at line {st.lineno} raised "
+                                               f"{exc.exc.cls.name} in the engine")
         return mod
+
+    def _poison_bindings(self, st, mod, why):
+        """names a skipped top-level statement would have bound become poisoned: using them is Unsupported
+        (undecided), never a NameError attributed to the code"""
+        names = set()
+        for n in ast.walk(st):
+            if isinstance(n, ast.Name) and isinstance(n.ctx, ast.Store):
+                names.add(n.id)
+            elif isinstance(n, (ast.FunctionDef, ast.ClassDef, ast.AsyncFunctionDef)):
+                names.add(n.name)
+            elif isinstance(n, (ast.Import, ast.ImportFrom)):
+                for a in n.names:
+                    names.add((a.asname or a.name).split(".")[0])
+        for nm in names:
+            if nm not in mod.env.vars:
+                mod.env.vars[nm] = Poison(why)
 
     def lookup_qual(self, spec):
         """'nanite.fit:FitProperties.__setitem__' -> value"""
@@ -681,7 +721,7 @@ class Interp:
         if isinstance(fn, FuncVal):
             return self.call_function(fn, args, kwargs)
         if isinstance(fn, Builtin):
-            return fn.fn(self, *args, **kwargs)
+            return self._call_model(fn.name, fn.fn, args, kwargs)
         if isinstance(fn, LibRef):
             impl = self.lib.get(fn.name)
             if impl is None and fn.name.startswith("some.path."):
@@ -691,7 +731,7 @@ class Interp:
             if impl is None:
                 raise Unsupported(f"no library model for {fn.name}")
             self.trusted.add(f"libmodel:{fn.name}")
-            return impl(self, *args, **kwargs)
+            return self._call_model(fn.name, impl, args, kwargs)
         if isinstance(fn, ClassVal):
             return self.instantiate(fn, args, kwargs)
         if isinstance(fn, Opaque):
@@ -701,6 +741,21 @@ class Interp:
             if m is not None:
                 return self.call(BoundMethod(fn, m), args, kwargs)
         raise Unsupported(f"call of {fn!r}")
+
+    def _call_model(self, name, impl, args, kwargs):
+        """call a library / builtin model; a call form the model does not know (extra keyword, other arity) is a gap
+        of the engine -- Unsupported, hence undecided -- and never an error of the check"""
+        import inspect
+        try:
+            sig = inspect.signature(impl)
+        except (TypeError, ValueError):
+            sig = None
+        if sig is not None:
+            try:
+                sig.bind(self, *args, **kwargs)
+            except TypeError as exc:
+                raise Unsupported(f"call form not modelled for {name}: {exc}")
+        return impl(self, *args, **kwargs)
 
     def instantiate(self, cls, args, kwargs):
         if cls.issub(EXC["BaseException"]):
@@ -981,8 +1036,16 @@ class Interp:
         broke = False
         for item in items:
             guard = None
+            if isinstance(item, tuple) and len(item) == 3 and item[0] == "__forked__":
+                # membership of this element is symbolic and decided by a case split
+                if not self.fork(item[1]):
+                    continue
+                item = item[2]
             if isinstance(item, tuple) and len(item) == 3 and item[0] == "__guarded__":
                 _, guard, item = item
+                guard = self._settle_guard(guard)
+                if guard is False:
+                    continue
             self.assign(st.target, item, env, mod)
             if guard is not None:
                 self.guards.append(guard)
@@ -1179,6 +1242,10 @@ class Interp:
                 pass
             if declared and node.id in declared:
                 self.raise_py("UnboundLocalError", node.id)
+            import builtins as _pybuiltins
+            if hasattr(_pybuiltins, node.id):
+                # a real Python builtin the engine has no model of: undecided, NOT a NameError of the code
+                raise Unsupported(f"builtin {node.id}() is not modelled")
             self.raise_py("NameError", node.id)
         if isinstance(v, tuple) and len(v) == 2 and v[0] == "__const__":
             from . import lib as _lib
@@ -1230,6 +1297,12 @@ class Interp:
         raise Unsupported(f"unhashable / symbolic key {k!r}")
 
     def ev_JoinedStr(self, node, env, mod):
+        if len(node.values) == 1 and isinstance(node.values[0], ast.FormattedValue) \
+                and node.values[0].format_spec is None and node.values[0].conversion in (-1, 114, 115):
+            # f"{x}" / f"{x!r}" / f"{x!s}" of one value: str(x) (repr and str agree for floats, ints, bools)
+            x = self.eval(node.values[0].value, env, mod)
+            if isinstance(x, (SReal, SInt, SBool, Fraction)) or (isinstance(x, (int, float)) and not isinstance(x, bool)):
+                return self.call(self.builtins["str"], [x], {})
         parts = []
         sym = False
         for v in node.values:
@@ -1479,6 +1552,11 @@ class Interp:
                 if not guarded_ok or len(gens) != 1:
                     raise Unsupported("comprehension over symbolic-presence dict")
                 _, g2, item = item
+                g2 = self._settle_guard(g2)
+                if g2 is False:
+                    continue
+                if g2 is None:
+                    g2 = guard
             e2 = Env(env)
             self.assign(g.target, item, e2, mod)
             if g2 is not None:
